@@ -1,4 +1,5 @@
 import GlyProofs.Smiles.Certify
+import GlyProofs.Smiles.TreeTheorem
 import GlyProofs.Front.WalkDen
 /-
   C01 — Glycosidic assembly yields exactly the molecule the linkages describe. (Property theorems only.)
@@ -70,6 +71,40 @@ theorem C01_label_clash_rejected :
     let child := "O[C@H]2O[C@H](CO)[C@@H](O)[C@H](O)[C@@H]2O".toList
     certifySplice "Ga".toList me child (subMarker "Ga".toList child (me.length + 1) me) = false := by
   decide +kernel
+
+/-- **Whole-glycan refinement** (any depth, any width, O- and N-linkages): for every tree of residue strings that passes the
+    decidable check `wfTree` – every string is a closed SMILES starting with an atom; the children's markers are pairwise
+    different marker atoms, each sitting exactly once in the parent's string on a leaf atom that has a parent atom; no other
+    marker atom occurs; no ring label of a child's assembled string is open in the parent at the child's marker – the
+    token-level Model of `merge_int` (`mergeTok`: merge every child, splice it over its marker, `N(`…`)` for N-linkages)
+    yields a SMILES that denotes **exactly the Spec molecule** `specTree`: the residue's own molecule with every child's
+    molecule grafted at the atom carrying its marker, every atom, bond event, ordered neighbour list and stereo mark of every
+    residue carried over as written. In particular the result is never "no molecule" (such inputs never come back empty). -/
+theorem C01_tree_refines_spec (isMk : Atom → Bool) (hN : isMk ['N'] = false) (t : TNode) (h : wfTree isMk t = true) :
+    ∃ M, sem (mergeTok t) = some M ∧ specTree t = some M := by
+  obtain ⟨M, h1, h2, _, _⟩ := tree_ok isMk hN t h
+  exact ⟨M, h1, h2⟩
+
+/-- Soundness of the whole-merge certificate the driver evaluates on **every real `merge_int` tree** (boundary strings
+    captured from RDKit): the string the character-level Model returns – text-identical to the code's – denotes `specTree`
+    of the tree of boundary strings. -/
+theorem C01_certified_tree (fuel : Nat) (node : Node) (h : certifyTree fuel node = true) :
+    ∃ t out to M, toTNode fuel node 0 = some t ∧ mergeInt fuel node 0 = .ok out ∧ tokenize out = some to ∧
+      sem to = some M ∧ specTree t = some M ∧ ∀ a ∈ M.atoms, isMkDummy a = false :=
+  certifyTree_sound fuel node h
+
+/-- Non-vacuity of `wfTree`: the boundary strings of `Man(a1-3)[Man(a1-6)]Man` (root with two marked positions, two
+    children) pass the certificate. -/
+theorem C01_tree_example :
+    certifyTree 10 (.mk "O1C(O)[C@@H](O)[C@@H]([Ga])[C@H](O)[C@H]1C[As]".toList 1
+      [.mk "O[C@H]1O[C@H](CO)[C@@H](O)[C@H](O)[C@@H]1O".toList 1 [],
+       .mk "O[C@H]1O[C@H](CO)[C@@H](O)[C@H](O)[C@@H]1O".toList 1 []]) = true := by
+  decide +kernel
+
+/-- An N-linked child: if the child's string is a closed block denoting `C`, then `"N(" + child[1:] + ")"` is a closed block
+    denoting `C` with its first atom (the anomeric O) replaced by the parent's N – same bonds, same atom numbering. -/
+theorem C01_nlink_block (block : List Tok) (C : Mol) (hb : BlockOK block C) : BlockOK (blockOf true block) (nCap C) :=
+  nblock block C hb
 
 /-- The tree the assembly consumes is the written one (C03). -/
 theorem C01_tree_is_written (w : WalkCfg) (s : Start) : walkStart w s = denStart w s := walkStart_eq_denStart w s
